@@ -85,6 +85,10 @@ var (
 // request builds the four wire fields of an edit / transfer for a change variant:
 // none = all sentinel, all = all changed, meta = name+data changed, tok = uri+uri_hash changed.
 func request(variant string) meta {
+	if variant == "blank" {
+		// every field present and empty: an empty string is a value (the new value), not "leave as it is"
+		return meta{"", "", "", ""}
+	}
 	r := meta{sentinel, sentinel, sentinel, sentinel}
 	if variant == "all" || variant == "meta" {
 		r.Name, r.Data = metaNew.Name, metaNew.Data
@@ -282,7 +286,7 @@ func (d *Driver) Enabled(e *mc.Env, s *mc.State) []mc.Op {
 			add(opData{kind: "transfer", slot: i, c: sd.c, sender: o, rcpt: r, variant: "none", entitled: true})
 		}
 		add(opData{kind: "transfer", slot: i, c: sd.c, sender: o, rcpt: o, variant: "all", entitled: true})
-		for _, v := range []string{"all", "meta", "tok"} {
+		for _, v := range []string{"all", "meta", "tok", "blank"} {
 			add(opData{kind: "transfer", slot: i, c: sd.c, sender: o, rcpt: next(o), variant: v, entitled: true})
 		}
 		// owner: edits
